@@ -21,7 +21,7 @@ META = {
                 "csr.reg.Builder.freeze", "csr.reg.Builder.as_memory_map", "memory.MemoryMap.add_resource",
                 "memory.MemoryMap._compute_addr_range", "memory._RangeMap.insert/overlaps"],
     "also": 'address widths 12/16; a second builder used while scopes of the first are open; nested scope programs with registers added after an inner block closed and scope values repeated along a path, scope objects created some time before they are entered; as_memory_map() repeated after a rejection',
-    "bounds": "geometry (addr width 3-6, data width 8/16/32, granularity dividing it); sequences of 2-3 (thorough "
+    "bounds": "geometry (addr width 1-16 and 60/62, data width 1-48, granularity dividing it, ratios 1-6); sequences of 2-3 (thorough "
               "2-4) additions of real registers with widths in {0,1,dw,dw+1,2dw+1,4dw}, each at an implicit or a "
               "SYMBOLIC explicit offset in [0, 2^aw * dw/g + 2], inside Cluster/Index scopes from a small grammar, "
               "optionally a repeated name, a rejected add() raised out of the scopes before a real one, an add after "
